@@ -72,6 +72,24 @@ def reference(obj, x):
     return {"f0": f0, "R1": R1, "R2": R2, "g2": g2, "g4": g4}, None
 
 
+def logd_noise(obj, x, step):
+    """max_i |f(x + 2 step e_i) - 2 f(x + step e_i) + f(x)|: evaluation noise of logd at the scale of the FD step"""
+    try:
+        x = np.array(x, dtype=float, copy=True)
+        f0 = _logd_scalar(obj, x)
+        worst = 0.0
+        for i in range(x.size):
+            e = np.zeros(x.size)
+            e[i] = step
+            d2 = _logd_scalar(obj, x + 2 * e) - 2.0 * _logd_scalar(obj, x + e) + f0
+            if not np.isfinite(d2):
+                return None
+            worst = max(worst, abs(d2))
+        return worst
+    except Exception:
+        return None
+
+
 class _Ref(object):
     def __init__(self, f):
         self.logd = f
@@ -177,6 +195,14 @@ def observe(case, kind, x, fd, fd_eps, rep=None, cache=None):
         good = any(float(np.max(np.abs(v - r))) <= atol for r in (R1, ref["R2"]))
     else:
         good = any(close(v, r, TOL_F32 if rep == "float32" else TOL) for r in (R1, ref["R2"], ref["g2"], ref["g4"]))
+    if not good and fd:
+        # forward differences with the library's step amplify the evaluation noise of logd by 1/step; where logd itself
+        # is noisy (e.g. a log-density computed as log(pdf) with pdf in the subnormal range) no derivative can be
+        # demanded from them.  The noise is MEASURED (second differences of the object's logd at the library's step
+        # along every axis; smooth part ~ f''*step^2, negligible), only when the comparison failed.
+        delta = logd_noise(_Ref(case.ref_logd) if fallback else case.obj, x, fd_eps)
+        if delta is not None and float(np.max(np.abs(v - R1))) <= atol + 4.0 * delta / fd_eps:
+            return {"status": "skip", "why": "fd-roundoff-dominated"}
     if good:
         return {"status": "ok", "shape_exact": tuple(a.shape) == tuple(x.shape), "fallback": fallback,
                 "impl": v, "ref": R1}
